@@ -206,8 +206,8 @@ for _n in ["plain", "foreign_synth"]:
 PROPS["C06"] = dict(
     claim=("one step of the real record parser from every slice of 1..3 arbitrary bytes, and from `#` followed by up to 4 arbitrary bytes (thorough: 1..4 arbitrary bytes, four-space indent + up to 4 bytes): never "
            "panics (default checks on), returns a strict suffix of its input (=> termination and <=1 item per byte, by induction over ProguardRecordIter::next) and yields no string containing a line terminator; "
-           "thorough adds locality on every 3-byte slice (the record depends only on its first line and parsing resumes right after it) and the validation of the from_utf8 / is_numeric models against the real functions"),
-    outside=("longer slices, the sourceFile JSON prefix and locality on longer slices are written (`--tier extra`) but did not finish inside 15-50 min; equality of Err items' `line` payload (carries the terminator)"),
+           "thorough adds the validation of the from_utf8 / is_numeric models against the real functions"),
+    outside=("longer slices, the sourceFile JSON prefix and the locality step (the record depends only on its first line; passes alone on 3-byte slices in 15 min but runs out of memory next to other harnesses) are written (`--tier extra`) but did not finish inside 15-50 min; equality of Err items' `line` payload (carries the terminator)"),
     assumptions=["std models (each proved equal to the real function by an s_* harness): core::str::from_utf8 -> table-driven validator; char::is_numeric -> exact Latin-1 table; memchr/memrchr -> byte loops"],
 )
 _c06 = dict(functions=["mapping::parse_proguard_record", "parse_proguard_header", "parse_proguard_field_or_method", "parse_proguard_class", "parse_usize", "parse_until*", "split_line", "consume_leading_newlines"],
@@ -215,7 +215,7 @@ _c06 = dict(functions=["mapping::parse_proguard_record", "parse_proguard_header"
 H("C06", "mapping", "c06_step_any_3", timeout=2400, what="step (a)(b)(c), every slice of 1..3 arbitrary bytes", vars="3 bytes (all 256 values), length", bound="<=3 bytes", **_c06)
 H("C06", "mapping", "c06_step_header_4", timeout=2400, what="step, `#` + up to 4 arbitrary bytes", vars="4 bytes, length", bound="<=5 bytes", **_c06)
 H("C06", "mapping", "c06_step_sourcefile_3", tier="extra", timeout=3000, what="step, sourceFile JSON prefix + up to 3 arbitrary bytes (unterminated value, terminators inside)", vars="3 bytes, length", bound="33+3 bytes", **_c06)
-H("C06", "mapping", "c06_locality_any_3", tier="thorough", timeout=3000, what="locality (d), every 3-byte slice", vars="3 bytes", bound="3 bytes", **_c06)
+H("C06", "mapping", "c06_locality_any_3", tier="extra", timeout=3000, what="locality (d), every 3-byte slice", vars="3 bytes", bound="3 bytes", **_c06)
 H("C06", "mapping", "c06_locality_any_4", tier="extra", timeout=3000, what="locality (d), every 4-byte slice", vars="4 bytes", bound="4 bytes", **_c06)
 H("C06", "mapping", "c06_step_any_4", tier="thorough", timeout=2400, what="step, 1..4 arbitrary bytes", vars="4 bytes, length", bound="<=4 bytes", **_c06)
 H("C06", "mapping", "c06_step_any_5", tier="extra", timeout=3000, what="step, 1..5 arbitrary bytes", vars="5 bytes, length", bound="<=5 bytes", **_c06)
@@ -280,7 +280,7 @@ H("C19", "mapping", "c19_is_valid_window", timeout=2400, what="is_valid == 50-it
 # --------------------------------------------------------------------------- C05
 PROPS["C05"] = dict(
     claim=("grammar templates with symbolic holes (identifier characters from the property's alphabet, digits) through the real record parser and through try_parse: the record's components are exactly the hole "
-           "slices (pointer and length). Quick: header `#key` and `# key: value`+LF. Thorough adds: parse_usize alone on 1..20 symbolic digits (exact value, or an error when it does not fit 64 bits), field line + LF, and the malformed lines `missing return type` and `missing arrow` (reported as errors carrying "
+           "slices (pointer and length). Quick: header `#key` and `# key: value`+LF. Thorough adds: parse_usize alone on 1..20 symbolic digits (exact value, or an error when it does not fit 64 bits), field line + LF, and the malformed line `missing arrow` (reported as an error carrying "
            "exactly the offending line, parsing resumes after it). The remaining templates (class, method x {range} x {class} x {:os,:os:oe}, sourceFile JSON, other malformed lines) are "
            "written and runnable with `./check C05 --tier extra`, but ran out of memory / time (24 GB, 50 min) or ended undetermined, and are in neither registered tier"),
     outside=("class and method templates (extra tier only, DESIGN.md section 2b); identifiers longer than 3 symbolic characters, numbers longer than 3 digits inside a full line, non-ASCII identifier characters; "
@@ -291,8 +291,8 @@ _c05 = dict(functions=["mapping::parse_proguard_record", "ProguardRecord::try_pa
             stubs=["core::str::from_utf8 -> from_utf8_model", "char::is_numeric -> is_numeric_model", "memchr/memrchr -> byte loops"], vars="identifier characters and digits of every hole", bound="one line")
 for _n, _t in [("class", "extra"), ("header_k", "quick"), ("class_crlf", "extra"), ("header_kv", "quick"), ("header_sourcefile", "extra"), ("field", "extra"), ("field_lf", "thorough"),
                ("method_plain", "extra"), ("method_noargs_class", "extra"), ("method_range", "extra"), ("method_range_os", "extra"), ("method_range_os_oe", "extra"), ("method_norange_os", "extra"),
-               ("bad_unspaced_arrow", "extra"), ("bad_class_no_colon", "extra"), ("bad_indent2", "extra"), ("bad_start_without_end", "extra"), ("bad_no_type", "thorough"), ("bad_no_arrow", "thorough")]:
-    H("C05", "mapping", "c05_" + _n, tier=_t, timeout=3000, what="template " + _n, **_c05)
+               ("bad_unspaced_arrow", "extra"), ("bad_class_no_colon", "extra"), ("bad_indent2", "extra"), ("bad_start_without_end", "extra"), ("bad_no_type", "extra"), ("bad_no_arrow", "thorough")]:
+    H("C05", "mapping", "c05_" + _n, tier=_t, timeout=3000, weight=(1 if _t == "quick" else 3), what="template " + _n, **_c05)
 H("C05", "mapping", "c05_parse_usize_20", tier="thorough", timeout=3000, what="parse_usize on 1..20 symbolic digits: exact value or error on overflow", vars="20 digits, count", bound="<=20 digits",
   functions=["mapping::parse_usize"], stubs=["core::str::from_utf8 -> from_utf8_model", "char::is_numeric -> is_numeric_model"])
 
